@@ -10,6 +10,8 @@ CONSTANTS
   MaxE = 2
   TwoM = 1
   PTypes = {0, 1}
+  AllowOut = TRUE
+  MinAliveE = 0
   PrimE = {2}
 INVARIANT Refines
 INVARIANT UniqueIds
@@ -20,4 +22,5 @@ INVARIANT GeoCopyValid
 INVARIANT CountersExact
 INVARIANT LedgerEvent
 INVARIANT WithinCapacity
+VIEW View
 CHECK_DEADLOCK FALSE
